@@ -32,5 +32,5 @@ def match(known, prop, key):
         if p != prop:
             continue
         if k == key or (k.endswith("*") and key.startswith(k[:-1])):
-            return text or k
+            return k, (text or k)
     return None
